@@ -219,6 +219,8 @@ class SymInterp:
             self.block(s.orelse, env, fi)
             self.block(s.finalbody, env, fi)
             return
+        if isinstance(s, ast.Raise):
+            raise SymRaise(unparse(s)[:120])
         if isinstance(s, ast.Continue):
             raise _Continue()
         if isinstance(s, ast.Break):
@@ -481,6 +483,10 @@ class SymInterp:
                 return self.call_function(target, [recv] + args, kwargs)
             raise AnalysisError(f"method {f.attr} on {recv!r} cannot be resolved symbolically")
         raise AnalysisError(f"call `{unparse(e)[:50]}` outside the symbolic fragment")
+
+
+class SymRaise(Exception):
+    """the interpreted code reached a `raise` statement"""
 
 
 class _Continue(Exception):
